@@ -16,6 +16,17 @@ abbrev cfg := FxVerif.Gen.C11.cfg
 /-- the facts of the Go source that the property needs (see `Model.C11.good`) hold of the code as it is now -/
 theorem cfg_good : good cfg = true := by decide
 
+/-- **wrappers_act_for_caller.**  Each of the thin precompile wrappers (delegateV2, undelegateV2, redelegateV2, withdraw,
+approveShares) makes exactly one SDK call — the one the model executes for the corresponding operation — on behalf
+of the transaction's caller, with the validator(s) and the amount of the call's arguments, inside
+`ExecuteNativeAction` (so it is reverted with the EVM frame, property C09), and hands a failure back. -/
+theorem wrappers_act_for_caller :
+    cfg.wrappers.map (·.call) = ["stakingMsgServer.Delegate", "stakingMsgServer.Undelegate", "stakingMsgServer.BeginRedelegate",
+      "distrMsgServer.WithdrawDelegatorReward", "stakingKeeper.SetAllowance"] ∧
+    ∀ w, w ∈ cfg.wrappers → w.delegator = "caller" ∧ w.native = true ∧ w.errPropagated = true ∧
+      (w.validator = "args.Validator" ∨ w.validator = "args.ValidatorSrc" ∧ w.validatorDst = "args.ValidatorDst") := by
+  decide
+
 /-- **transfer_moves_exactly.**  A successful transfer of `X` (= shares × 10^18) between different accounts takes
 exactly `X` from the sender (whose delegation had at least `X`; it disappears iff it had exactly `X`), adds exactly `X`
 to the recipient (with or without a previous delegation), leaves every other delegation, the validator's tokens
@@ -437,6 +448,27 @@ theorem still_withdrawable_partial (nAcc h0 : Nat) (vals : List (Nat × Nat)) (h
   · rcases unbond_full_total hi (h := h) hd hdel with hE | ⟨v', ret, c, hu, hn, _⟩
     · exact Or.inl hE
     · exact Or.inr ⟨v', ret, c, hu, hn⟩
+
+/-- **the exception in `still_withdrawable_partial` is real.**  `still_withdrawable` at full strength is false of the SDK's
+18-decimal arithmetic, without any share transfer: slash a validator of 10^20 tokens by 100 base units (fraction
+10⁻¹⁸), let someone delegate one base unit, slash by 100 base units again — the second effective fraction
+100 / (10^20 − 99) is truncated at 36 decimals to exactly 10⁻¹⁸ by `QuoRoundUp`, so the stake recomputed for the
+operator exceeds its current stake by ~99·10⁻¹⁸ > 3·10⁻¹⁸ and `CalculateDelegationRewards` refuses (panics in the
+real keeper; reproduced on the real app, see fixes/C11-sdk-stake-sanity.md).  The cause is dependency code (Cosmos SDK
+x/staking `Slash` + x/distribution), reachable only with slash fractions at the 10⁻¹⁸ precision limit. -/
+def errOf {α} : Except Err α → Option Err
+  | .ok _ => none
+  | .error e => some e
+
+theorem eq_error_of_errOf {α} {x : Except Err α} {e : Err} (h : errOf x = some e) : x = .error e := by
+  cases x with
+  | ok a => cases h
+  | error e' => cases h; rfl
+
+theorem stake_sanity_reachable :
+    ∃ (ops : List Op) (d sh : Nat), (reachVS 2 1 [(100000000000000000000, 0)] ops 0).del d = some sh ∧
+      (reachVS 2 1 [(100000000000000000000, 0)] ops 0).withdrawMsg 3 d = .error .stakeSanity :=
+  ⟨[.slash 0 1 1, .delegate 1 0 1, .slash 0 1 1], 0, 100000000000000000000 * ONE, by decide, eq_error_of_errOf (by decide)⟩
 
 /-- **transfer_reinitialises.**  After any history, a successful transfer between different accounts leaves each
 party with exactly the starting info the SDK's own `initializeDelegation` would write for its new shares at that
